@@ -35,6 +35,7 @@ import ODataVerif.Model.OrmRel
 import ODataVerif.Spec.OrmRelSem
 import ODataVerif.Spec.NumFn
 import ODataVerif.Spec.DateSem
+import ODataVerif.Spec.DateFilters
 open OQ OQ.Wire
 
 def encTok : Tok → String
@@ -224,6 +225,26 @@ def decClockCell (c : String) : Option (Option Spec.ClockV) :=
 def perCell {α} (cells : String) (dec : String → Option α) (f : α → Spec.V3) : String :=
   " ".intercalate ((cells.splitOn ",").map (fun c => match dec c with | some v => encV3 (f v) | none => "bad-cell"))
 
+/-- DateF on the wire, prefix notation, space separated:  and X Y | or X Y | not X | cmp k c lit | cmpr k lit c | in c n l1 … ln | part p k c n -/
+partial def decDateF : List String → Option (Spec.DateF × List String)
+  | "and" :: r => do let (a, r) ← decDateF r; let (b, r) ← decDateF r; pure (.and a b, r)
+  | "or" :: r => do let (a, r) ← decDateF r; let (b, r) ← decDateF r; pure (.or a b, r)
+  | "not" :: r => do let (a, r) ← decDateF r; pure (.not a, r)
+  | "cmp" :: k :: c :: l :: r => do pure (.cmp (← decCmpK k) c.toList (← Spec.DateV.ofIso l.toList), r)
+  | "cmpr" :: k :: l :: c :: r => do pure (.cmpR (← decCmpK k) (← Spec.DateV.ofIso l.toList) c.toList, r)
+  | "in" :: c :: n :: r => do
+      let k ← n.toNat?
+      let ls ← (r.take k).mapM (fun l => Spec.DateV.ofIso l.toList)
+      if ls.length == k then pure (.inl c.toList ls, r.drop k) else none
+  | "part" :: p :: k :: c :: n :: r => do
+      let pp ← (match p with | "year" => some Spec.DatePart.year | "month" => some .month | "day" => some .day | _ => none)
+      pure (.part pp (← decCmpK k) c.toList (← n.toNat?), r)
+  | _ => none
+def withDateF (w : String) (f : Spec.DateF → String) : String :=
+  match decDateF (w.splitOn " ") with
+  | some (d, []) => f d
+  | _ => "bad-datef"
+
 def handle (args : List String) : String :=
   match args with
   | ["ping"] => "pong"
@@ -309,6 +330,22 @@ def handle (args : List String) : String :=
         | some b, some rows => " ".intercalate (rows.map (fun ρ => if Spec.semOkB ρ b then encV3 (Spec.evalB ρ b) else "x" ++ encV3 (Spec.evalB ρ b)))
         | none, _ => "noelab"
         | _, none => "bad-rows")
+  | ["datefexpr", w] => withDateF w (fun d => encTree d.toExpr.toTree)
+  | ["datefeval", w, rs] =>
+      -- Spec.evalDF per row: T / F / U, prefixed `x` when the filter is not well-formed or the row is outside rowOk
+      withDateF w (fun d =>
+        match decRows rs with
+        | some rows => " ".intercalate (rows.map (fun ρ => (if d.wf && d.rowOk ρ then "" else "x") ++ encV3 (Spec.evalDF ρ d)))
+        | none => "bad-rows")
+  | ["sqlitedate", h, rs] =>
+      -- Spec.sqlEvalD (SQLite's behaviour on the date shapes) on the tree read from a WHERE text: 1 / 0 per row, `?` outside the model
+      (match decStr h, decRows rs with
+       | some txt, some rows =>
+           (match Spec.sqlRead txt with
+            | some t => " ".intercalate (rows.map (fun ρ => match Spec.sqliteSelectsD ρ t with
+                                                           | some true => "1" | some false => "0" | none => "?"))
+            | none => "unreadable")
+       | _, _ => "bad-arg")
   | ["sqliteeval", h, rs] =>
       -- SqliteSem on the tree the Lean SQL reader gets from a WHERE text: 1 / 0 per row, `?` when outside the model
       (match decStr h, decRows rs with
